@@ -55,6 +55,13 @@ def class_snapshot(cls):
         for c in cls.__mro__:
             if k in c.__dict__ and not isinstance(c.__dict__[k], property):
                 out[f'{c.__name__}.{k}'] = freeze(c.__dict__[k])
+    # ... and every other class-level list / dict / set along the way (a registry or a table of defaults kept on the class)
+    for c in cls.__mro__:
+        if c is object:
+            continue
+        for k, v in c.__dict__.items():
+            if isinstance(v, (list, dict, set)) and f'{c.__name__}.{k}' not in out and not k.startswith('__'):
+                out[f'{c.__name__}.{k}'] = freeze(v)
     return out
 
 
